@@ -24,7 +24,7 @@ TInit == Init /\ l = 1
 TReset == /\ Is("reset") /\ Adv
           /\ disk' = (IF AppendMode THEN PreBytes ELSE <<>>) /\ buf' = <<>> /\ holder' = 0
           /\ pc' = [t \in Threads |-> "idle"] /\ cur' = [t \in Threads |-> <<>>] /\ pos' = [t \in Threads |-> 0]
-          /\ done' = [t \in Threads |-> 0] /\ acked' = {}
+          /\ done' = [t \in Threads |-> 0] /\ acked' = {} /\ failed' = {}
 TBegin == Is("begin") /\ Adv /\ Ev.i = done[Ev.t] + 1 /\ Begin(Ev.t, Ev.shape)
 \* the previous holder's guard is dropped before anyone else can lock; its "end" event may come later
 TLock == /\ Is("lock") /\ Adv
@@ -34,15 +34,21 @@ TLock == /\ Is("lock") /\ Adv
                  /\ holder' = t
                  /\ done' = [done EXCEPT ![h] = @ + 1] /\ acked' = acked \cup {<<h, done[h] + 1, Sum(cur[h])>>}
                  /\ pc' = [pc EXCEPT ![h] = "idle", ![t] = "encode"]
-                 /\ UNCHANGED <<disk, buf, cur, pos>>
+                 /\ UNCHANGED <<disk, buf, cur, pos, failed>>
 TChunk == Is("chunk") /\ Adv /\ pos[Ev.t] < Len(cur[Ev.t]) /\ cur[Ev.t][pos[Ev.t] + 1] = Ev.n /\ Encode(Ev.t)
 TEncoded == Is("encoded") /\ Adv /\ pos[Ev.t] = Len(cur[Ev.t]) /\ Encode(Ev.t) /\ SameFile(disk, Ev.file)
 TFlushed == Is("flushed") /\ Adv /\ Flush(Ev.t) /\ SameFile(disk', Ev.file)
+\* the encoder is about to return an error, after Ev.chunks write calls (logged by the encoder itself, under the lock)
+TEncFail == Is("encfail") /\ Adv /\ pos[Ev.t] = Ev.chunks /\ EncodeFail(Ev.t)
+TEndFail == /\ Is("end") /\ Adv /\ ~Ev.ok /\ Ev.scripted
+            /\ pc[Ev.t] = "idle" /\ done[Ev.t] = Ev.i /\ <<Ev.t, Ev.i>> \in failed /\ UNCHANGED vars
+\* the appender has been dropped; the file is read afterwards
+TClosed == Is("closed") /\ Adv /\ Close /\ SameFile(disk', Ev.file)
 TEnd == /\ Is("end") /\ Adv /\ Ev.ok
         /\ IF holder = Ev.t THEN Unlock(Ev.t) ELSE (pc[Ev.t] = "idle" /\ done[Ev.t] = Ev.i /\ UNCHANGED vars)
 \* a reader in the appending thread, after the call returned: the record must be whole in the file
 TSaw == Is("saw") /\ Adv /\ Ev.whole /\ <<Ev.t, Ev.i, Ev.units>> \in acked /\ UNCHANGED vars
-TNext == TReset \/ TBegin \/ TLock \/ TChunk \/ TEncoded \/ TFlushed \/ TEnd \/ TSaw
+TNext == TEncFail \/ TEndFail \/ TClosed \/ TReset \/ TBegin \/ TLock \/ TChunk \/ TEncoded \/ TFlushed \/ TEnd \/ TSaw
 TSpec == TInit /\ [][TNext]_<<vars, l>>
 Accepted == LET d == TLCGet("stats").diameter IN
             IF d - 1 = Len(Rec) THEN TRUE
